@@ -106,6 +106,14 @@ def judge(params, k, arb, o, inject_label=None):
     if o.end == "exception":
         bad.append(("escaped-run:%s%s" % (o.exc.split(":")[0], at), "exception left Arbiter.run(): %s" % o.exc))
         return bad
+    if not params["timeout"]:
+        # timeout=0 switches the watchdog off (documented): the master never aborts a worker for being silent
+        import signal as _sig
+        ab = [x for x in k.kills if x[2] == _sig.SIGABRT]
+        if ab:
+            bad.append(("watchdog-active-although-disabled" + at, "timeout=0, yet the master sent SIGABRT to worker %d at t=+%.2f (its last heartbeat was %.1f s old at most)" % (
+                ab[0][1], ab[0][0] - 1000.0, 0.4)))
+            return bad
     if o.end == "exit":
         if any(t[0] == "log" and "Unhandled exception in main loop" in t[2] for t in k.trace):
             bad.append(("main-loop:unhandled-exception" + at, "the master hit 'Unhandled exception in main loop' and exited with %r" % (o.code,)))
@@ -178,8 +186,10 @@ def execute(params, script, inject=None, settle=None):
     cf = cfgs_for(params)
     if settle is None:
         settle = 3 + (params["timeout"] + 2 if params["timeout"] else 0)
+    # healthy workers heartbeat every 0.4 s: the last heartbeat is up to 0.4 s old, never "now" - with timeout=0
+    # ("no watchdog", documented) that age must not matter
     k = sk.Kernel(script=script, inject=inject, term=params["term"], settle=settle, other_children=1 if params.get("other") else 0,
-                  pid_order=params.get("pids", "ascending"))
+                  pid_order=params.get("pids", "ascending"), hb_gap=0.4)
     o = sk.run_arbiter(cf, k)
     return k, o
 
